@@ -185,6 +185,14 @@ func c11Objects(ps []geometry.Point) []geojson.Object {
 		out = append(out, geojson.NewFeatureCollection([]geojson.Object{geojson.NewFeature(rest, ""), geojson.NewGeometryCollection(nil), geojson.NewPoint(ps[0])}))
 		out = append(out, geojson.NewMultiLineString([]*geometry.Line{geometry.NewLine(ps[:1], nil), geometry.NewLine(ps, nil)}))
 		out = append(out, geojson.NewMultiPolygon([]*geometry.Poly{geometry.NewPoly(ps, nil, nil), geometry.NewPoly(ps[1:], nil, nil)}))
+		// a later child whose box extends the running union on both sides of an axis
+		all := geojson.NewLineString(geometry.NewLine(ps, nil))
+		out = append(out, geojson.NewGeometryCollection([]geojson.Object{geojson.NewPoint(ps[0]), all}))
+		out = append(out, geojson.NewFeatureCollection([]geojson.Object{geojson.NewFeature(geojson.NewPoint(ps[len(ps)-1]), ""), geojson.NewPoint(ps[0]), geojson.NewFeature(all, "")}))
+		out = append(out, geojson.NewMultiLineString([]*geometry.Line{geometry.NewLine(ps[:2], nil), geometry.NewLine(ps, nil)}))
+		if len(ps) >= 3 {
+			out = append(out, geojson.NewMultiPolygon([]*geometry.Poly{geometry.NewPoly(ps[:3], nil, nil), geometry.NewPoly(ps, nil, nil)}))
+		}
 	}
 	return out
 }
